@@ -7,6 +7,8 @@ package strategy
 
 import (
 	"context"
+	"encoding/json"
+	"fmt"
 	"sync"
 	"time"
 
@@ -29,7 +31,7 @@ func compareCurrentPodWithNewPod(params *Parameters, pod *corev1.Pod, node *Node
 	if !compareSpecTemplateMD5Hash(params.Replicaset.Spec.TemplateGeneration, pod) {
 		return false
 	}
-	if !compareWithExtendedDaemonsetSettingOverwrite(pod, node) {
+	if !compareWithExtendedDaemonsetSettingOverwrite(pod, withoutNodeOverriddenContainers(params.EDSName, params.Replicaset.Namespace, node)) {
 		return false
 	}
 	if !compareNodeResourcesOverwriteMD5Hash(params.EDSName, params.Replicaset, pod, node) {
@@ -37,6 +39,34 @@ func compareCurrentPodWithNewPod(params *Parameters, pod *corev1.Pod, node *Node
 	}
 
 	return true
+}
+
+// withoutNodeOverriddenContainers returns the node item with the containers whose resources are
+// overridden by a (well-formed) node annotation removed from its ExtendedDaemonsetSetting: at pod
+// creation the node annotation takes precedence over the setting, so the setting must not be used
+// to decide that such a pod is outdated.
+func withoutNodeOverriddenContainers(edsName, edsNamespace string, node *NodeItem) *NodeItem {
+	if node == nil || node.Node == nil || node.ExtendedDaemonsetSetting == nil {
+		return node
+	}
+	var kept []datadoghqv1alpha1.ExtendedDaemonsetSettingContainerSpec
+	for _, container := range node.ExtendedDaemonsetSetting.Spec.Containers {
+		key := fmt.Sprintf(datadoghqv1alpha1.ExtendedDaemonSetRessourceNodeAnnotationKey, edsNamespace, edsName, container.Name)
+		if val, ok := node.Node.GetAnnotations()[key]; ok {
+			var resources corev1.ResourceRequirements
+			if err := json.Unmarshal([]byte(val), &resources); err == nil {
+				continue
+			}
+		}
+		kept = append(kept, container)
+	}
+	if len(kept) == len(node.ExtendedDaemonsetSetting.Spec.Containers) {
+		return node
+	}
+	setting := node.ExtendedDaemonsetSetting.DeepCopy()
+	setting.Spec.Containers = kept
+
+	return &NodeItem{Node: node.Node, ExtendedDaemonsetSetting: setting}
 }
 
 func compareNodeResourcesOverwriteMD5Hash(edsName string, replicaset *datadoghqv1alpha1.ExtendedDaemonSetReplicaSet, pod *corev1.Pod, node *NodeItem) bool {
